@@ -78,11 +78,9 @@ DLSEnd == /\ pc = "LSF"
 DAccF == IF memo.pt = x /\ memo.f THEN AccFHit ELSE AccFEval(x, ls.pend)
 DAccG == IF memo.pt = x /\ memo.g THEN AccGHit ELSE AccGEval(x, ls.accPg)
 DUpd == CallUpd
+\* the target is tested first, with and without an update function (fix 32361ca: the update path used to test ftol first)
 DTests == /\ pc = "Tests"
-          /\ IF cfg.upd = "none"
-             THEN IF LeT(fx) THEN StopTarget
-                  ELSE \/ ~cfg.ftol0 /\ StopFtol
-                       \/ NoStop
+          /\ IF LeT(fx) /\ (cfg.upd = "none" \/ Variant # "FtolFirstWithUpd") THEN StopTarget
              ELSE \/ ~cfg.ftol0 /\ StopFtol
                   \/ IF LeT(fx) THEN StopTarget ELSE NoStop
 \* the filter keeps the newest point and a subsequence of the older ones
@@ -147,6 +145,9 @@ I_C07_SnapX == C07_SnapX
 I_C07_SnapFrozen == C07_SnapFrozen
 I_C07_SnapPairs == C07_SnapPairs
 I_C10_Bounded == C10_Bounded
+I_C13_TargetFirst == C13_TargetFirst
+I_C13_ReturnFiltered == C13_ReturnFiltered
+I_C13_SnapFiltered == C13_SnapFiltered
 I_C18_Count == C18_Count
 I_C18_Provenance == C18_Provenance
 I_C18_SnapProvenance == C18_SnapProvenance
